@@ -7,7 +7,7 @@ interpreter that shares no evaluation code with the machine model M4 (`Machine.s
 compared tick-by-tick with the real evaluator (C06/C08) — and both are compared with
 `garden run` on every generated program (harness/c05.py, three-way differential).
 
-TARGET (DESIGN §7 C05), kept visible:
+PROVED (DESIGN §7 C05, the target, all stages):
 
     theorem machine_refines_bigstep (p : Program)
         (hwf : wfProgram p = true) (hex : exitsProgram p = true) (hlv : levelProgram p ≤ 2)
@@ -27,7 +27,9 @@ position of a loop body), `levelProgram` (0: expressions, blocks, `let`, assignm
 
 The simulation lemma (Lemmas/BigStep.lean) is stated for an arbitrary frame context — callers
 `cs`, pending entries `K`, values `V`, any non-empty scopes — with one machine lemma per node
-kind, and proved by induction on the big-step fuel (`Holds`, `Concl`, `sim_succ_*`).
+kind, and proved by induction on the big-step fuel (`Holds`, `Concl`, `sim_succ_a/b/c`, `sim2`).
+Outside the fragment the implementation is known to deviate (known findings C05/exit-in-operand/*).
+Nothing is claimed for runs that exhaust the fuel (non-termination) or leave the fragment.
 -/
 set_option linter.unusedSimpArgs false
 namespace C05
@@ -42,54 +44,57 @@ theorem wf_toplevel (p : Program) (h : wfProgram p = true) : wfAll p.toplevel = 
 theorem exits_toplevel (p : Program) (h : exitsProgram p = true) : exB false false p.toplevel = true := by
   unfold exitsProgram at h; simp only [Bool.and_eq_true] at h; exact h.1
 
-/-- **Stage (a)**: expressions, blocks, `let` (symbol and destructuring), assignment, `+=`,
-binary operators, list and tuple literals (items right-to-left), `if` / `else` and `match` with
-block scoping, calls of built-ins (`println`, `print`, `string_repr`) and enum constructors
-(receiver first, arguments right-to-left), any nesting, any number of toplevel expressions.
-Whenever the reference interpreter, with any fuel, ends with a value or an error, the machine
-started as `garden run` starts it reaches `done` with the same value, resp. `error` with the same
-error kind, and the same output.
+/-- **C05, the refinement theorem (all three stages).** For every program of the core fragment —
+use flags as the parser sets them (`wfProgram`), `break` / `continue` in statement position of a
+loop body (`exitsProgram`), node kinds of levels 0–2 (`levelProgram ≤ 2`: expressions, blocks,
+`let` with destructuring, assignment, `+=`, binary operators, list / tuple literals, `if` / `else`,
+`match`, built-in and constructor calls; `while`, `for`, `break`, `continue`; named functions with
+recursion, function literals / closures, calls with frames, `return`) — and every fuel:
+whenever the reference interpreter `BigStep.runProgram` ends with a value or an error, the machine
+`Machine.step`, iterated from the state `garden run` starts in, reaches `done` with the same value,
+resp. `error` with the same error kind, having printed the same output.
 
-The reference interpreter here is `evalWith (applyBuiltin p)`: `BigStep.eval` with the one
-difference that calling a closure or a named function answers `unsupported` (nothing claimed);
-programs of level 0 contain neither function definitions nor function literals. -/
+Proof: `sim2` (simulation for the interpreter with the fragment check made dynamic at closure
+calls, by induction on the fuel, one machine lemma per node kind) and `runProgram_checked_eq` (on
+programs of the fragment that interpreter is `BigStep.eval`: every closure value carries a body of
+the fragment — invariant `vok`). -/
+theorem machine_refines_bigstep (p : Program)
+    (hwf : wfProgram p = true) (hex : exitsProgram p = true) (hlv : levelProgram p ≤ 2) (fuel : Nat) :
+    match BigStep.runProgram p fuel with
+    | (out, .val v) => ∃ n s, runN n (Machine.init p [] none none) = .done s v ∧ s.out = out
+    | (out, .err e) => ∃ n s, runN n (Machine.init p [] none none) = .error s e ∧ s.out = out
+    | _ => True := by
+  have hf := funs_ok p hwf hex hlv
+  rw [← runProgram_checked_eq p hf (level_toplevel p 2 hlv) (wf_toplevel p hwf) (exits_toplevel p hex) fuel]
+  exact refines_of_IH (sim2 p hf fuel).1 (level_toplevel p 2 hlv) (wf_toplevel p hwf) (exits_toplevel p hex)
+
+/-- Stage (a): expressions, blocks, `let`, assignment, `+=`, `if`, `match`, literals, built-in
+calls (`levelProgram p ≤ 0`). -/
 theorem machine_refines_bigstep_stage_a (p : Program)
     (hwf : wfProgram p = true) (hex : exitsProgram p = true) (hlv : levelProgram p ≤ 0) (fuel : Nat) :
-    match runProgramWith (evalWith (applyBuiltin p) p fuel) p with
+    match BigStep.runProgram p fuel with
     | (out, .val v) => ∃ n s, runN n (Machine.init p [] none none) = .done s v ∧ s.out = out
     | (out, .err e) => ∃ n s, runN n (Machine.init p [] none none) = .error s e ∧ s.out = out
     | _ => True :=
-  refines_of_IH (sim0 (applyBuiltin p) p (apHolds_builtin p) fuel)
-    (level_toplevel p 0 hlv) (wf_toplevel p hwf) (exits_toplevel p hex)
+  machine_refines_bigstep p hwf hex (by omega) fuel
 
-/-- **Stage (b)** = stage (a) + `while`, `for` (symbol and tuple destinations), `break`, `continue`
-through any nesting of `if` / `match` blocks and loops, under `exitsProgram` (exits in statement
-position of a loop body). Same statement, programs of level ≤ 1. -/
+/-- Stage (b): + `while`, `for`, `break`, `continue` (`levelProgram p ≤ 1`). -/
 theorem machine_refines_bigstep_stage_b (p : Program)
     (hwf : wfProgram p = true) (hex : exitsProgram p = true) (hlv : levelProgram p ≤ 1) (fuel : Nat) :
-    match runProgramWith (evalWith (applyBuiltin p) p fuel) p with
+    match BigStep.runProgram p fuel with
     | (out, .val v) => ∃ n s, runN n (Machine.init p [] none none) = .done s v ∧ s.out = out
     | (out, .err e) => ∃ n s, runN n (Machine.init p [] none none) = .error s e ∧ s.out = out
     | _ => True :=
-  refines_of_IH (sim1 (applyBuiltin p) p (apHolds_builtin p) fuel).1
-    (level_toplevel p 1 hlv) (wf_toplevel p hwf) (exits_toplevel p hex)
+  machine_refines_bigstep p hwf hex (by omega) fuel
 
-/-- **Stage (c)** = stages (a), (b) + named functions (recursion included), function literals
-(closures capturing the scopes of their definition by value), calls of both (new frame, arguments
-right-to-left, arity errors, the value handed back iff the call's value is used) and `return`
-from any depth of blocks and loops. Programs of level ≤ 2 — the whole core fragment.
-
-The reference interpreter here is `evalWith (applyChecked p)`: `BigStep.eval` with the fragment
-check made dynamic at closure calls (a closure whose body is outside the fragment answers
-`unsupported`; every function literal of a program satisfying the three predicates is inside). -/
+/-- Stage (c): + named functions, closures, `return` (`levelProgram p ≤ 2`) — the full theorem. -/
 theorem machine_refines_bigstep_stage_c (p : Program)
     (hwf : wfProgram p = true) (hex : exitsProgram p = true) (hlv : levelProgram p ≤ 2) (fuel : Nat) :
-    match runProgramWith (evalWith (applyChecked p) p fuel) p with
+    match BigStep.runProgram p fuel with
     | (out, .val v) => ∃ n s, runN n (Machine.init p [] none none) = .done s v ∧ s.out = out
     | (out, .err e) => ∃ n s, runN n (Machine.init p [] none none) = .error s e ∧ s.out = out
     | _ => True :=
-  refines_of_IH (sim2 p (funs_ok p hwf hex hlv) fuel).1
-    (level_toplevel p 2 hlv) (wf_toplevel p hwf) (exits_toplevel p hex)
+  machine_refines_bigstep p hwf hex hlv fuel
 
 /-- Non-vacuity: a level-0 program with a `let`, an `if`/`else` block, a `match`, a built-in call
 and a tuple satisfies the three fragment predicates (flags as the parser sets them). -/
@@ -144,5 +149,25 @@ example : wfProgram exampleC = true ∧ exitsProgram exampleC = true ∧ levelPr
   refine ⟨?_, ?_, ?_⟩ <;>
     simp [exampleC, wfProgram, exitsProgram, levelProgram, wfAll, wfE, wfB, wfCases, exB, exE, exAll, exCases,
       lvB, lvE, lvCases, Expr.used]
+
+/-- Both interpreters, evaluated by the kernel on the concrete programs above (a loop left by
+`break` inside an `if` block and a `for` with `continue`; a named function returning from inside a
+loop, a closure capturing `k`, nested calls): the same values. -/
+def outInt : Outcome → Option Int64
+  | .val (.int v) => some v
+  | _ => none
+
+def resInt : StepResult → Option Int64
+  | .done _ (.int v) => some v
+  | _ => none
+
+set_option maxRecDepth 100000 in
+example : outInt (runProgram exampleB 20).2 = some 3 := by decide
+set_option maxRecDepth 100000 in
+example : resInt (runN 200 (Machine.init exampleB [] none none)) = some 3 := by decide
+set_option maxRecDepth 100000 in
+example : outInt (runProgram exampleC 30).2 = some 13 := by decide
+set_option maxRecDepth 100000 in
+example : resInt (runN 300 (Machine.init exampleC [] none none)) = some 13 := by decide
 
 end C05
